@@ -121,6 +121,15 @@ func richParams(ts tsInfo, cd gcodec.Codec) gcodec.Parameters {
 }
 
 func c10Frame(a c10Case, sym int) []byte {
+	if sym == 6 {
+		// the ramp frame with its second half changed in the lowest bit: shares every byte of its first half with symbol 1
+		f := append([]byte(nil), c10Frame(a, 1)...)
+		step := a.BA / 8
+		for i := (len(f) / 2 / step) * step; i < len(f); i += step {
+			f[i] ^= 1
+		}
+		return f
+	}
 	k := map[int]int{0: -1, 1: 0, 2: 1, 3: 4, 4: 301, 5: 1001}[sym]
 	bs := a.BS
 	if sym == 0 {
@@ -813,6 +822,11 @@ func c10(c *eng.Ctx) {
 									jobs = append(jobs, c10Case{TS: ti, W: sz[0], H: sz[1], BA: f[0], BS: f[1], SPP: spp, Seq: s2})
 								}
 							}
+							// neighbours that share their first half: [1,6] and [6,1] (once per geometry)
+							if l == 2 && k == 0 {
+								jobs = append(jobs, c10Case{TS: ti, W: sz[0], H: sz[1], BA: f[0], BS: f[1], SPP: spp, Seq: []int{1, 6}},
+									c10Case{TS: ti, W: sz[0], H: sz[1], BA: f[0], BS: f[1], SPP: spp, Seq: []int{6, 1, 6}})
+							}
 							// the JPEG 2000 family reads PixelRepresentation: signed frames too (short sequences)
 							if l <= 2 && (strings.HasPrefix(ts.Name, ".9") || strings.HasPrefix(ts.Name, ".2")) {
 								jobs = append(jobs, c10Case{TS: ti, W: sz[0], H: sz[1], BA: f[0], BS: f[1], SPP: spp, Signed: true, Seq: append([]int(nil), seq...)})
@@ -823,6 +837,17 @@ func c10(c *eng.Ctx) {
 						}
 					}
 				}
+			}
+		}
+	}
+	// one large frame size (full 64x64 code-blocks, thousands of MCUs / run segments) with noise between quiet frames
+	for ti, ts := range tss {
+		for _, f := range ts.Formats {
+			if f[0] == 16 && f[1] <= 8 {
+				continue
+			}
+			for _, seq := range [][]int{{2}, {1, 2, 1}} {
+				jobs = append(jobs, c10Case{TS: ti, W: 128, H: 128, BA: f[0], BS: f[1], SPP: 1, Seq: seq})
 			}
 		}
 	}
